@@ -73,7 +73,7 @@ CLAIMED = {
         ref="§3 C19"),
     "C20": dict(
         text="Proof for DescribeTunnel and DiscoverOnInterface: at most one request is sent, the socket obtained is closed on every return path after a successful dial, the timeout channel is created once with the caller's timeout and is an alternative of every select, and (Discover) each iteration appends exactly the received *SearchRes, in arrival order, and nothing else.",
-        note="Sequential model of the environment (DESIGN §2.4.5): knxnet.Socket, channels, goroutines, mutexes, timers and container/list are environment operations with ghost logs (send log per socket, sent/received count and last value per channel, held flag per mutex, ghost clock); select may take any case, receives may yield any well-typed value or 'closed'; loop-free goroutines are run to completion in place (assumed: eventually scheduled), long-running workers are logged and verified separately. Holds for every sequence of environment choices, NOT for interleavings with other goroutines touching the same state (that is C10), nor for liveness/wall-clock claims. The wall-clock bound itself reduces to the assumed contract of time.After/select. Dial/Listen and NewDescriptionReq/NewSearchReq are assumed (trusted) contracts.",
+        note="Sequential model of the environment (DESIGN §2.4.5): knxnet.Socket, channels, goroutines, mutexes, timers and container/list are environment operations with ghost logs (send log per socket, sent/received count and last value per channel, held flag per mutex, ghost clock); select may take any case, receives may yield any well-typed value or 'closed'; loop-free goroutines are run to completion in place (assumed: eventually scheduled), long-running workers are logged and verified separately. Holds for every sequence of environment choices, NOT for interleavings with other goroutines touching the same state (that is C10), nor for liveness/wall-clock claims. The wall-clock bound itself reduces to the assumed contract of time.After/select. Dial/Listen are assumed (trusted) contracts; NewDescriptionReq/NewSearchReq and HostInfoFromAddress are verified against assumed contracts of net.SplitHostPort/net.ParseIP/net.IP.To4/strconv.ParseUint.",
         ref="§3 C20"),
 }
 
